@@ -593,15 +593,46 @@ def call_ordinal(I, st, node, callee_name):
     return tab.get(id(node), 0)
 
 
+def loc_guard(I, st, node, env):
+    """a modifies location that goes through a dict subscript only exists when the key is present"""
+    from . import specs
+    conj = []
+    for n in ast.walk(node):
+        if isinstance(n, ast.Subscript):
+            try:
+                d = specs.eval_spec(I, st, n.value, env)
+                k = specs.eval_spec(I, st, n.slice, env)
+                base = strip_opt(d.ty)
+                if is_ref(base) and REG.get(base[1]).kind == "dict":
+                    conj.append(z3.Select(I.dom_of(st, d), I.key_term(st, REG.get(base[1]), k)))
+            except Unsupported:
+                pass
+    return z3.And(*conj) if conj else None
+
+
 def modifies_locations(I, st, c, env, mod_nodes):
-    """evaluate modifies expressions -> list of (ref term, [(key, sort)])"""
+    """evaluate modifies expressions -> list of (ref Val, [(key, sort)]); the Val's `none` flag also covers a location
+    whose dict-subscript path does not exist"""
     from . import specs
     out = []
     for mn in mod_nodes:
+        n_before = len(out)
+        _modifies_one(I, st, env, mn, out)
+        g = loc_guard(I, st, mn, env)
+        if g is not None:
+            for idx in range(n_before, len(out)):
+                v, keys = out[idx]
+                out[idx] = (Val(v.ty, v.term, z3.Or(v.none, z3.Not(g))), keys)
+    return out
+
+
+def _modifies_one(I, st, env, mn, out):
+    from . import specs
+    if True:
         if isinstance(mn, ast.Call) and isinstance(mn.func, ast.Name) and mn.func.id == "content":
             v = specs.eval_spec(I, st, mn.args[0], env)
             if v.ty == "NoneT":
-                continue
+                return
             kd = I.kd_of(v)
             out.append((v, I.content_keys(kd)))
         elif isinstance(mn, ast.Attribute) and not (isinstance(mn.value, ast.Name) and False):
@@ -633,12 +664,11 @@ def modifies_locations(I, st, c, env, mod_nodes):
                 node_ = mn.args[0]
             v = specs.eval_spec(I, st, node_, env)
             if v.ty == "NoneT":
-                continue
+                return
             base = strip_opt(v.ty)
             if not is_ref(base):
                 raise Unsupported("modifies %s: not an object" % ast.unparse(mn))
             out.append((v, I.object_keys(base[1])))
-    return out
 
 
 def havoc_locations(I, st, locs):
@@ -672,6 +702,7 @@ def apply_contract(I, st, c, fi, argmap, node):
     # --- outcome --------------------------------------------------------------------------
     exc_keys = list(c.raises.keys())
     k = st.choose(1 + len(exc_keys), "outcome of %s" % short)
+    st.trail.append("%s:%s" % (short, "ok" if k == 0 else exc_keys[k - 1].rstrip("!")))
     saved = (st.old_heap, st.old_alloc)
     st.old_heap, st.old_alloc = pre_heap, pre_alloc
     st.spec_assume_alloc = False      # assumed postconditions may introduce objects the callee allocated
